@@ -955,3 +955,176 @@ func rangeCallsOf(p *Prog, fn *ssa.Function) []ssa.CallInstruction {
 	}
 	return idx[fn]
 }
+
+
+// libDecodeKind: the call decodes a frame body with the library: the invoke itself
+// (DecodeBody / ConvertFromRawFrame / DecodeFrame on a frame codec) or a small repo wrapper around
+// it (same results, e.g. one that adds a recover).  Returns the method name, "" otherwise.
+func libDecodeKind(p *Prog, call ssa.CallInstruction) string {
+	isLib := func(c ssa.CallInstruction) string {
+		cm := c.Common()
+		if !cm.IsInvoke() {
+			return ""
+		}
+		switch cm.Method.Name() {
+		case "DecodeBody", "ConvertFromRawFrame", "DecodeFrame":
+			if n := namedOf(cm.Value.Type()); n != nil && n.Obj().Pkg() != nil && strings.HasSuffix(n.Obj().Pkg().Path(), "/frame") {
+				return cm.Method.Name()
+			}
+		}
+		return ""
+	}
+	if k := isLib(call); k != "" {
+		return k
+	}
+	callee := call.Common().StaticCallee()
+	if callee == nil || callee.Blocks == nil || !p.InRepo(callee) || callee.Signature.Results().Len() != 2 {
+		return ""
+	}
+	kind := ""
+	n := 0
+	eachCall(callee, func(c ssa.CallInstruction) {
+		if k := isLib(c); k != "" {
+			kind = k
+			n++
+		}
+	})
+	if n != 1 {
+		return ""
+	}
+	return kind
+}
+
+
+// reachingStore: for a load of a local that is assigned several times (a captured variable, a
+// named result), the one store whose value the load sees: the latest store that dominates the
+// load, provided no other store can run between the two.  nil when that cannot be established.
+func reachingStore(ld *ssa.UnOp) *ssa.Store {
+	al, ok := ld.X.(*ssa.Alloc)
+	if !ok || ld.Op != token.MUL {
+		return nil
+	}
+	var stores []*ssa.Store
+	for _, ref := range *al.Referrers() {
+		if st, ok := ref.(*ssa.Store); ok && st.Addr == ssa.Value(al) {
+			stores = append(stores, st)
+		}
+	}
+	idxIn := func(in ssa.Instruction) int {
+		for i, x := range in.Block().Instrs {
+			if x == in {
+				return i
+			}
+		}
+		return -1
+	}
+	before := func(a, b ssa.Instruction) bool { // a executes before b on every path to b
+		if a.Block() == b.Block() {
+			return idxIn(a) < idxIn(b)
+		}
+		return a.Block().Dominates(b.Block())
+	}
+	var cands []*ssa.Store
+	for _, st := range stores {
+		if before(st, ld) {
+			cands = append(cands, st)
+		}
+	}
+	var last *ssa.Store
+	for _, c := range cands {
+		isLast := true
+		for _, o := range cands {
+			if o != c && !before(o, c) {
+				isLast = false
+			}
+		}
+		if isLast {
+			last = c
+		}
+	}
+	if last == nil {
+		return nil
+	}
+	reach := func(from, to *ssa.BasicBlock) bool {
+		seen := map[*ssa.BasicBlock]bool{}
+		stack := []*ssa.BasicBlock{from}
+		for len(stack) > 0 {
+			b := stack[len(stack)-1]
+			stack = stack[:len(stack)-1]
+			if b == to {
+				return true
+			}
+			if seen[b] {
+				continue
+			}
+			seen[b] = true
+			stack = append(stack, b.Succs...)
+		}
+		return false
+	}
+	for _, o := range stores {
+		if o == last || before(o, last) {
+			continue
+		}
+		if reach(last.Block(), o.Block()) && reach(o.Block(), ld.Block()) {
+			return nil
+		}
+	}
+	return last
+}
+
+
+// zeroAtLoad: the load of a local reads its zero value: no store to the local can run before it.
+func zeroAtLoad(ld *ssa.UnOp) bool {
+	al, ok := ld.X.(*ssa.Alloc)
+	if !ok || ld.Op != token.MUL {
+		return false
+	}
+	reach := func(from, to *ssa.BasicBlock) bool {
+		seen := map[*ssa.BasicBlock]bool{}
+		stack := []*ssa.BasicBlock{from}
+		for len(stack) > 0 {
+			b := stack[len(stack)-1]
+			stack = stack[:len(stack)-1]
+			if b == to {
+				return true
+			}
+			if seen[b] {
+				continue
+			}
+			seen[b] = true
+			stack = append(stack, b.Succs...)
+		}
+		return false
+	}
+	for _, ref := range *al.Referrers() {
+		switch x := ref.(type) {
+		case *ssa.Store:
+			if x.Addr != ssa.Value(al) {
+				return false
+			}
+			if x.Block() == ld.Block() {
+				for _, in := range x.Block().Instrs {
+					if in == ssa.Instruction(x) {
+						return false // the store comes first in the block
+					}
+					if in == ssa.Instruction(ld) {
+						break
+					}
+				}
+				// the load comes first; a loop could still bring the store before it
+				if reach(x.Block().Succs[0], ld.Block()) {
+					return false
+				}
+				continue
+			}
+			if reach(x.Block(), ld.Block()) {
+				return false
+			}
+		case *ssa.UnOp, *ssa.DebugRef, *ssa.MakeClosure:
+		default:
+			return false
+		}
+	}
+	return true
+}
